@@ -438,7 +438,10 @@ def rule_good_filters(ctx, res):
             tgt = set_id(e[2][0])
             outs.append(sets.get(tgt, 'other'))
             val = e[2][1]
-            if 'addr' not in field_chain(val) or not find_calls(val, 'Node::handle'):
+            via_handle = 'addr' in field_chain(val) and find_calls(val, 'Node::handle')
+            v2 = strip_transparent(val)
+            via_addr = isinstance(v2, tuple) and v2[0] == 'call' and v2[1] == 'node::Node::addr' and node_addr_is_handle_addr(ctx)
+            if not (via_handle or via_addr):
                 outs.append('not-the-node-address')
         return tuple(outs)
 
@@ -451,6 +454,17 @@ def rule_good_filters(ctx, res):
     bad, n = tab.compare({'S': list(STATUS)}, expected)
     res.check(not bad and iters, 'TABLE', 'table::RoutingTable::load_contacts', 'export table: Good -> first set, Questionable -> second set, Bad -> neither',
               site=b.span, detail='; '.join('%s -> got %s want %s' % (v, g, e) for v, g, e in bad[:4]))
+
+
+def node_addr_is_handle_addr(ctx):
+    """Node::addr() returns self.handle.addr"""
+    b = ctx.f.body('node::Node::addr')
+    if b is None:
+        return False
+    s = Sym(b)
+    s.run()
+    cps = s.complete_paths()
+    return len(cps) == 1 and field_chain(strip_transparent(cps[0].ret)) == ['handle', 'addr'] and is_param(root_of(strip_transparent(cps[0].ret)), 'self')
 
 
 def rule_queries_mark_only(ctx, res):
